@@ -41,6 +41,8 @@ def r1_locks(ctx):
             bad.setdefault((c["body"], c["bb"]), c)
         # every call site executed with a live guard is an instance
         for key, body in P.bodies.items():
+            if key in P.inlined_away:
+                continue
             h = la.held(key)
             if not h.guards:
                 continue
